@@ -268,7 +268,8 @@ static void packet_mutations(const std::string &seed, const std::function<void(c
 			std::string ntag(1, (char)(0xC0 | p.tag)), lid = pid + ":len" + str(l);
 			if (l < 192) emit(lid + "n1", "length", pre + ntag + be(l, 1) + body + post);
 			if (l >= 192 && l <= 8383) emit(lid + "n2", "length", pre + ntag + std::string(1, (char)(((l - 192) >> 8) + 192)) + std::string(1, (char)((l - 192) & 0xff)) + body + post);
-			emit(lid + "n5", "length", pre + ntag + "\xff" + be(l, 4) + body + post);
+			// off-by-one lengths are the structure-aware core of the catalogue: never thinned by --stride (id prefix "x")
+			emit(((l + 1 == p.len || l == p.len + 1) ? "x" : "") + lid + "n5", "length", pre + ntag + "\xff" + be(l, 4) + body + post);
 			if (p.tag < 16)
 			{
 				if (l < 256) emit(lid + "o1", "length", pre + std::string(1, (char)(0x80 | (p.tag << 2) | 0)) + be(l, 1) + body + post);
@@ -324,6 +325,12 @@ static void packet_mutations(const std::string &seed, const std::function<void(c
 					std::string b2 = body;
 					b2[off] = (char)(mb[a] >> 8), b2[off + 1] = (char)(mb[a] & 0xff);
 					emit(pid + ":mpi" + str(nm) + "bits" + str(mb[a]), "mpi-length", pre + seed.substr(p.hdr, p.body - p.hdr) + b2 + post);
+				}
+				if (bits + 8 <= 0xffff)
+				{
+					std::string b2 = body;   // the MPI claims one byte more than it has (never thinned)
+					b2[off] = (char)((bits + 8) >> 8), b2[off + 1] = (char)((bits + 8) & 0xff);
+					emit("x" + pid + ":mpi" + str(nm) + "bitsplus8", "mpi-length", pre + seed.substr(p.hdr, p.body - p.hdr) + b2 + post);
 				}
 				{
 					std::string b2 = body;   // value zero with the same length
